@@ -7,8 +7,8 @@ OPEN = [
    ["state-vs-model", "reopen-vs-model", "unexpected-exception"],
    "a measurement name '' is written as the reserved word '_none' and read back as '_none' (and an insert(measurement='') argument is ignored): CSV format limitation, repair would change the file format / ~25 'if measurement:' call sites"),
   ("KF2", "none_sentinel_tag_value", ["C04", "C05"],
-   ["state-vs-model:tags", "reopen-vs-model:tags"],
-   "a tag value equal to the reserved word '_none' is read back as None: collision with the None sentinel of the CSV format, not repairable without changing the format"),
+   ["state-vs-model", "reopen-vs-model"],
+   "a tag value equal to the reserved word '_none' is read back as None (and an update/remove whose query names that value therefore misses the stored point, e.g. leaves its time unchanged): collision with the None sentinel of the CSV format, not repairable without changing the format"),
   ("KF3", "csv_lf_dialect_with_cr", ["C04", "C05"],
    ["file-undecodable", "state-vs-model", "reopen-vs-model", "unexpected-exception", "reopen-failed", "reopen-read-failed"],
    "with the csv option lineterminator='\\n' a string containing a bare CR is written unquoted by Python's csv.writer and split into two rows by csv.reader: limitation of the csv module that tinyflux passes the dialect options to"),
